@@ -79,6 +79,48 @@ def natural_sources(label):
     return ['gSNP']
 
 
+def reindex(text, idx):
+    """the entry with its trailing peptide index replaced (appended when there is none)"""
+    head, _, last = text.rpartition('|')
+    if head and last.isdigit():
+        return f'{head}|{idx}'
+    return f'{text}|{idx}'
+
+
+def near_labels(rng, stored, textual=False):
+    """A header for a sequence that is already in an earlier input, built from the entries
+    stored for it: near-identical labels (same backbone + variants, another index — in
+    particular an index that is a textual prefix / extension of the stored one), verbatim
+    repeats and contiguous sub-runs of the stored header.  `textual`: also arbitrary textual
+    pieces of the stored header (only for tools that never parse the labels)."""
+    stored = [e for e in stored if e]
+    if not stored:
+        return None
+    k = rng.randint(0, 5 if textual else 4)
+    e = rng.choice(stored)
+    head, _, last = e.rpartition('|')
+    if k == 0:
+        return [e]                                              # verbatim repeat
+    if k == 1 and head and last.isdigit() and len(last) >= 2:
+        return [f'{head}|{last[:rng.randint(1, len(last) - 1)]}']   # 11 -> 1, 25 -> 2
+    if k == 2 and head and last.isdigit():
+        return [f'{head}|{last}{rng.randint(0, 9)}']            # 1 -> 13
+    if k == 3:
+        i = rng.randrange(len(stored))
+        j = rng.randint(i + 1, len(stored))
+        return stored[i:j]                                      # contiguous sub-run
+    if k == 4:
+        return [reindex(e, rng.randint(1, 99))] + ([rng.choice(stored)] if rng.random() < 0.3 else [])
+    if k == 5:
+        t = ' '.join(stored)
+        cuts = [i + 1 for i, c in enumerate(t) if c in '| '] + [0]
+        a = rng.choice(cuts)
+        ends = [i for i, c in enumerate(t) if c in '| ' and i > a] + [len(t)]
+        piece = t[a:rng.choice(ends)].strip()
+        return piece.split(' ') if piece else [e]
+    return [reindex(e, rng.randint(10, 99))]
+
+
 class Case:
     pass
 
@@ -107,10 +149,46 @@ def gen_case(rng, malformed=False, clean=False):
         seen.add(s)
         ents = [gen_entry(rng, uni, odd) for _ in range(rng.choice([1, 1, 2, 3]))]
         files[rng.choice([0, 0, 0, 1, 2])].append((s, ents))
-    if not clean and rng.random() < 0.3 and seen:
-        # the same sequence in two files: load_database merges the headers
-        s = rng.choice(sorted(seen))
-        files[rng.choice([1, 2])].append((s, [gen_entry(rng, uni, odd)]))
+    if not clean and rng.random() < 0.45 and seen:
+        # the same sequence in two (three) input files: load_database merges the headers.
+        # Half of the time the later label is near-identical to the stored one (same
+        # backbone + variants, index a textual prefix / extension, verbatim repeat, sub-run).
+        for _ in range(rng.choice([1, 1, 2])):
+            s = rng.choice(sorted(seen))
+            src = next(((fi, k) for fi, f in enumerate(files) for k, (s2, _) in enumerate(f)
+                        if s2 == s), None)
+            if src is None:
+                continue
+            fi, k = src
+            if fi == 2:
+                continue
+            ents0 = files[fi][k][1]
+            if rng.random() < 0.5:
+                # two-digit indices on the stored side make "11 then 1" possible
+                ents0 = [GenEntry(reindex(e.text, rng.randint(10, 99)), e.kind, e.txs, e.variants,
+                                  e.alts, e.canonical_form, e.orf, e.gene)
+                         if isinstance(e, GenEntry) and e.text.rpartition('|')[2].isdigit()
+                         and e.canonical_form else e for e in ents0]
+                files[fi][k] = (s, ents0)
+            later = rng.choice([x for x in (1, 2) if x > fi])
+            if any(s2 == s for s2, _ in files[later]):
+                continue
+            if rng.random() < 0.6:
+                near = near_labels(rng, [etext(e) for e in ents0])
+                by_text = {etext(e): e for e in ents0}
+                ents = []
+                for t in near or []:
+                    b = by_text.get(t)
+                    if b is None:
+                        b0 = next((e for e in ents0 if isinstance(e, GenEntry)
+                                   and e.text.rpartition('|')[0] == t.rpartition('|')[0]), None)
+                        b = GenEntry(t, b0.kind, b0.txs, b0.variants, b0.alts, b0.canonical_form,
+                                     b0.orf, b0.gene) if b0 is not None else t
+                    ents.append(b)
+                if ents:
+                    files[later].append((s, ents))
+                    continue
+            files[later].append((s, [gen_entry(rng, uni, odd)]))
     if malformed and rng.random() < 0.5:
         f = rng.choice([f for f in files if f] or [files[0]])
         if f:
@@ -531,19 +609,33 @@ def run_merge(ctx, work, stats):
         nfiles = rng.randint(1, 4)
         seqs = [gen_seq(rng) for _ in range(rng.randint(1, 6))]
         files = []
+        stored = {}          # sequence -> entries accumulated by the earlier files
         for _ in range(nfiles):
             f = []
             for s in seqs:
                 if rng.random() < 0.55:
-                    ents = [gen_entry(rng, uni, 0.1).text for _ in range(rng.choice([1, 1, 2]))]
-                    if rng.random() < 0.3 and files and files[0]:
-                        # an entry differing from an earlier one only in its index -> dedup
-                        prev = rng.choice(rng.choice([x for x in files if x])[1] if False else
-                                          [e for ff in files for _, es in ff for e in es])
-                        ents.append(prev.rsplit('|', 1)[0] + f'|{rng.randint(1, 9)}')
+                    ents = None
+                    if s in stored and rng.random() < 0.5:
+                        # same sequence as in an earlier input, near-identical label(s)
+                        ents = near_labels(rng, stored[s], textual=True)
+                    if ents is None:
+                        ents = [gen_entry(rng, uni, 0.1).text for _ in range(rng.choice([1, 1, 2]))]
+                        if rng.random() < 0.4:
+                            ents = [reindex(e, rng.randint(10, 99)) if e.rpartition('|')[2].isdigit()
+                                    else e for e in ents]
+                        if rng.random() < 0.3 and stored:
+                            # an entry differing from an earlier one only in its index -> dedup
+                            prev = rng.choice([e for es in stored.values() for e in es])
+                            ents.append(reindex(prev, rng.randint(1, 9)))
                     f.append((s, ents))
             if rng.random() < 0.15 and f:
                 f.append((f[0][0], [gen_entry(rng, uni, 0).text]))   # duplicate sequence in a file
+            seen_f = set()
+            for s, ents in f:
+                if s not in seen_f:
+                    seen_f.add(s)
+                    stored.setdefault(s, [])
+                    stored[s] = stored[s] + list(ents)
             files.append(f)
         dedup = rng.random() < 0.4
         d = os.path.join(work, f'm{i}')
@@ -578,11 +670,24 @@ def run_merge(ctx, work, stats):
                     seen.add(s)
                     want.setdefault(s, [])
                     want[s] += ents
+            want = {s: ' '.join(v).rstrip().split(' ') for s, v in want.items()}
             got = {s: t.split(' ') for t, s in recs}
-            if got != want or len(recs) != len(got):
+            # union of sequences (each once), union of header ENTRIES as a multiset per
+            # sequence; the order of the entries (file order) is checked separately
+            bad = None
+            if len(recs) != len(got) or set(got) != set(want):
+                bad = 'sequences'
+            elif any(sorted(got[s]) != sorted(want[s]) for s in want):
+                bad = 'entries (multiset)'
+            elif got != want:
+                bad = 'entry order'
+            if bad:
+                s_bad = next((s for s in want if sorted(got.get(s, [])) != sorted(want[s])), None)
                 ctx.add_violation('mergeFasta output is not the union of sequences with the union '
                                   'of header entries',
-                                  {'predicate': 'union', 'files': files, 'output': recs})
+                                  {'predicate': 'union', 'differs_in': bad, 'seq': s_bad,
+                                   'want_entries': want.get(s_bad), 'got_entries': got.get(s_bad),
+                                   'files': files, 'output': recs})
         shutil.rmtree(d, ignore_errors=True)
     ctx.diff_stream('merge', cases, True, lambda o: {'files': o[0], 'dedup_header': o[1]},
                     lambda o: ' ' in o, 'mergeFasta output differs from the proved model')
